@@ -833,7 +833,18 @@ def final_origin(o):
         return ["derived", o[1], list(o[2])]
     if o[0] == "param":
         return ["param", int(o[1])]
+    if o[0] == "other":
+        # third element: the ROOT of the flow ("a <- b <- expr" -> "expr"), taken before the text is shortened,
+        # so that it does not depend on the chain of local variables in between
+        return ["other", cut(o[1]), cut(o[1].split(" <- ")[-1], 48)]
     return [o[0], cut(o[1])]
+
+
+def origin_root(o):
+    """stable key of an `other` origin for the allow-list of NV/C15/Sites.lean ("" for the other constructors)"""
+    if o[0] != "other":
+        return ""
+    return o[2] if len(o) > 2 else cut(o[1].split(" <- ")[-1], 48)
 
 
 class TU:
@@ -1232,6 +1243,7 @@ structure Site where
   arg : Nat
   line : Nat
   origin : Origin
+  root : String        -- `other` origins: the root expression of the flow (allow-list key); "" otherwise
 deriving DecidableEq, Repr
 
 structure Call where
@@ -1241,6 +1253,7 @@ structure Call where
   arg : Nat
   line : Nat
   origin : Origin
+  root : String
 deriving DecidableEq, Repr
 
 """
@@ -1254,12 +1267,14 @@ def render(res):
     out.append(llist("fsCallees", "String", [lstr(x) for x in res["fsCallees"]],
                      "names of the libc functions searched for"))
     out.append(llist("sites", "Site", [
-        "{ file := %s, fn := %s, callee := %s, arg := %d, line := %d, origin := %s }" % (
-            lstr(s["file"]), lstr(s["fn"]), lstr(s["callee"]), s["arg"], s["line"], lorigin(s["origin"]))
+        "{ file := %s, fn := %s, callee := %s, arg := %d, line := %d, origin := %s, root := %s }" % (
+            lstr(s["file"]), lstr(s["fn"]), lstr(s["callee"]), s["arg"], s["line"], lorigin(s["origin"]),
+            lstr(origin_root(s["origin"])))
         for s in res["sites"]]))
     out.append(llist("calls", "Call", [
-        "{ file := %s, caller := %s, callee := %s, arg := %d, line := %d, origin := %s }" % (
-            lstr(c["file"]), lstr(c["caller"]), lstr(c["callee"]), c["arg"], c["line"], lorigin(c["origin"]))
+        "{ file := %s, caller := %s, callee := %s, arg := %d, line := %d, origin := %s, root := %s }" % (
+            lstr(c["file"]), lstr(c["caller"]), lstr(c["callee"]), c["arg"], c["line"], lorigin(c["origin"]),
+            lstr(origin_root(c["origin"])))
         for c in res["calls"]]))
     out.append(llist("fsEfuns", "String", [lstr(x) for x in res.get("fsEfuns", [])],
                      "efun implementations (f_* in lib/efuns) from which a file-system call site of lib/efuns or "
